@@ -61,8 +61,8 @@ class WindowReader(actors.Party):
 class C03(Check):
     prop = "C03"
     level = "exploration"
-    quick_runs = 6000
-    thorough_runs = 150000
+    quick_runs = 16000
+    thorough_runs = 400000
     rule = (
         "seeded histories (importer/editor per bucket, clean restarts) on a coarse lattice produce overlapping, nested, "
         "adjacent and zero-length events; interleaved windowed reads/counts with edges snapped to event starts/ends "
